@@ -3,6 +3,8 @@ package main
 import (
 	"encoding/binary"
 	"net"
+
+	"github.com/anacrolix/dht/v2/krpc"
 )
 
 // KRPC datagram construction and inspection through the independent bencode reader.
@@ -70,4 +72,8 @@ func parseDgram(w written) dgram {
 
 func sameUDP(a, b *net.UDPAddr) bool {
 	return a != nil && b != nil && a.IP.Equal(b.IP) && a.Port == b.Port
+}
+
+func nodeInfo(id [20]byte, a *net.UDPAddr) krpc.NodeInfo {
+	return krpc.NodeInfo{ID: id, Addr: krpc.NodeAddr{IP: a.IP, Port: a.Port}}
 }
